@@ -1,7 +1,7 @@
 (* Chain proofs: the response-integrity monitor as a whole.  Five of its six flags are proved
    (rm_val: ChainResp; rm_yield, rm_start: ChainResp2; rm_uniq: ChainResp3; rm_once: ChainResp4);
-   the sixth, rm_body, is open (checked on every real trace).  stmt_resp follows from
-   stmt_resp_body alone. *)
+   the sixth, rm_body, is proved in ChainResp6 (chain_resp_body; with it chain_resp : stmt_resp).
+   This file shows that stmt_resp follows from stmt_resp_body alone. *)
 From Coq Require Import List Bool Arith NArith.
 Import ListNotations.
 From TarpcV Require Import Base Transport Chain ChainSpec ChainRespSpec.
